@@ -264,6 +264,24 @@ fn scenarios(tier: Tier) -> Vec<Scenario> {
             }
         }
     }
+    // a body that already carries an INFO URL line of its own (a mirror filled from another cache): the
+    // cached copy gets a second note and a later cache-only lookup must still report the download's URL
+    {
+        let with_url: Vec<u8> = [BODY, b"INFO URL https://upstream.example.org/foo.sym\nPUBLIC 7000 0 after_url\n"].concat();
+        for framing in ["content-length", "chunked"] {
+            v.push(base("body-with-info-url", Kind::Symbols, vec![script_full(framing, &with_url)]));
+        }
+    }
+    // a line longer than the parser's window (> 160 KiB) in the middle of the body: it is discarded by the
+    // parser but every byte of it still belongs in the cache file
+    {
+        let mut long = BODY.to_vec();
+        long.extend_from_slice(b"PUBLIC 8000 0 ");
+        long.extend(std::iter::repeat(b'x').take(170 * 1024));
+        long.extend_from_slice(b"\nPUBLIC 9000 0 after_long_line\n");
+        v.push(base("over-long-line", Kind::Symbols, vec![script_full("content-length", &long)]));
+        v.push(base("over-long-line", Kind::Symbols, vec![script_split(&long, &[BODY.len() + 5000, BODY.len() + 100_000], true)]));
+    }
     // error statuses and empty bodies
     for st in [404u16, 500, 503, 301, 302, 204] {
         let mut sc = base("status", Kind::Symbols, vec![script_status(st)]);
@@ -619,7 +637,7 @@ fn main() {
         let mut def = CheckDef::new(
             "C16",
             "fault_enumeration",
-            "every scenario of a finite script space is run against the real HttpSymbolSupplier over loopback TCP: connection cut after EVERY byte count of the body under content-length / chunked / close-delimited framing; every two-chunk split; 1-byte and 7-byte trickles; each line corrupted; missing final newline; error and redirect statuses; stall until the client timeout; client future dropped after each server event (at several split points) once the client has quiesced; pre-existing cache entry; unusable cache / tmp directories; two servers (first fails in 5 ways); failure-then-success histories; the same cuts and cancellations for opaque file downloads (binary, extra debug info). After each run cache/ and tmp/ are walked; after each success a fresh supplier with a dead server reloads from the cache. distinct_nontrivial = distinct (scenario class, outcome, cache file count, tmp file count, cached size).",
+            "every scenario of a finite script space is run against the real HttpSymbolSupplier over loopback TCP: connection cut after EVERY byte count of the body under content-length / chunked / close-delimited framing; every two-chunk split; 1-byte and 7-byte trickles; each line corrupted; missing final newline; a body with its own INFO URL line; a line longer than the parser window; error and redirect statuses; stall until the client timeout; client future dropped after each server event (at several split points) once the client has quiesced; pre-existing cache entry; unusable cache / tmp directories; two servers (first fails in 5 ways); failure-then-success histories; the same cuts and cancellations for opaque file downloads (binary, extra debug info). After each run cache/ and tmp/ are walked; after each success a fresh supplier with a dead server reloads from the cache. distinct_nontrivial = distinct (scenario class, outcome, cache file count, tmp file count, cached size).",
         );
         def.assumptions = vec![
             "poll boundaries inside hyper/tokio are owned by the runtime and are not enumerated; cancellation points are 'after each server event, once the client made no progress for 20 ms' (the awaits of fetch_symbol_file: send(), each chunk())".into(),
